@@ -110,17 +110,17 @@ Definition cell_barycenter (m : mesh T) : list (vec T) := map (fun C => g_cell_b
 Definition euler_characteristic (m : mesh T) : Z := g_euler (zlen (verts m)) (zlen (edges m)) (zlen (faces m)).
 Definition opt_n {A} (n : option Z) (l : list A) : Z := match n with Some k => k | None => zlen l end.
 Definition mean_edge_length (m : mesh T) (n : option Z) : T :=
-  let n' := opt_n n (edges m) in
+  let n' := g_mean_edge_length_n (opt_n n (edges m)) (zlen (edges m)) in
   let cnt := g_mean_edge_length_count n' (zlen (edges m)) in
   g_mean_edge_length_result o
     (fold_left (fun l e => oadd o l (g_mean_edge_length_item o (P m (fst e)) (P m (snd e))))
        (firstn (Z.to_nat cnt) (edges m)) (o0 o)) n'.
 Definition mean_face_area (m : mesh T) (n : option Z) : T :=
-  let n' := opt_n n (faces m) in
+  let n' := g_mean_face_area_n (opt_n n (faces m)) (zlen (faces m)) in
   let cnt := g_mean_face_area_count n' (zlen (faces m)) in
   g_mean_face_area_result o (fold_left (oadd o) (firstn (Z.to_nat cnt) (face_area m)) (o0 o)) n'.
 Definition mean_cell_volume (m : mesh T) (n : option Z) : T :=
-  let n' := opt_n n (cells m) in
+  let n' := g_mean_cell_volume_n (opt_n n (cells m)) (zlen (cells m)) in
   let cnt := g_mean_cell_volume_count n' (zlen (cells m)) in
   g_mean_cell_volume_result o (fold_left (oadd o) (firstn (Z.to_nat cnt) (cell_volume m)) (o0 o)) n'.
 Definition total_area (m : mesh T) : T := g_total_area o (face_area m).
